@@ -310,6 +310,56 @@ func gen(g *vh.Gen) {
 		// behind the other listeners; the order of THOSE must not change)
 		g.Emit(g.Pick("lua", "lua", "lua", "lua", "lua", "luareload"), append(c.Fields(), vh.H(stream), vh.HS(script), ml, rl, msl, secondRules(g, lastAddrs), secondRules(g, lastAddrs), secondMsgRules(g))...)
 	}
+	// failure runs: one handler raises k times in a row (k from 3 to 300), then the SAME handler is asked about an
+	// address / a subject it answers: an error means "no answer" for that call only
+	for i := 0; i < g.N(6, 90); i++ {
+		c, pool := smtpd.GenCfg(g, o)
+		c.DA, c.DS, c.Acc, c.Rej, c.Sto, c.Dis, c.RejO, c.MaxRcpt, c.MaxBytes = true, true, "", "", "", "", "", 1000, 10240000
+		k := []int{15, 3, 40, 16, 100, 14, 300, 64}[i%8]
+		bad, good := "raise@"+pool[0], "answer@"+pool[0]
+		fail := g.Pick(`error("boom")`, "local z = nil\n return z.f")
+		var mail, rcpt, msg ruleSet
+		mail.lua = []string{fmt.Sprintf("[%s] = function(arg1)\n %s\n end", q(bad), fail), fmt.Sprintf("[%s] = function(arg1)\n return smtp.deny(553, %s)\n end", q(good), q("after the failures"))}
+		mail.labels = []string{vh.HS(bad) + "=N", vh.HS(good) + "=D553:" + vh.HS("after the failures")}
+		rcpt.lua = []string{fmt.Sprintf("[%s] = function(arg1)\n %s\n end", q(bad), fail), fmt.Sprintf("[%s] = function(arg1)\n return smtp.deny(550, %s)\n end", q(good), q("blocked mailbox"))}
+		rcpt.labels = []string{vh.HS(bad) + "=N", vh.HS(good) + "=D550:" + vh.HS("blocked mailbox")}
+		msg.lua = []string{fmt.Sprintf("[%s] = function(arg1)\n %s\n end", q("hello"), fail), fmt.Sprintf("[%s] = function(arg1)\n arg1.mailboxes = {%s}\n return arg1\n end", q("Re: test 1"), q("urgent"))}
+		msg.labels = []string{vh.HS("hello") + "=N", vh.HS("Re: test 1") + "=O[" + hexList([]string{"urgent"}) + "];~;~;~"}
+		script := table("mail_rules", mail) + table("rcpt_rules", rcpt) + table("msg_rules", msg) +
+			"function inbucket.before.mail_from_accepted(session)\n local f = mail_rules[session.from.address]\n if f then return f(session) end\nend\n" +
+			"function inbucket.before.rcpt_to_accepted(session)\n local f = rcpt_rules[session.to[#session.to].address]\n if f then return f(session) end\nend\n" +
+			"function inbucket.before.message_stored(msg)\n local f = msg_rules[msg.subject]\n if f then return f(msg) end\nend\n"
+		var b strings.Builder
+		line := func(x string) { b.WriteString(x + "\r\n") }
+		line("HELO runs.example")
+		switch i % 3 {
+		case 0: // the MAIL handler
+			for j := 0; j < k; j++ {
+				line("MAIL FROM:<" + bad + ">")
+				line("RSET")
+			}
+			line("MAIL FROM:<" + good + ">")
+		case 1: // the RCPT handler
+			line("MAIL FROM:<s@" + pool[1] + ">")
+			for j := 0; j < k; j++ {
+				line("RCPT TO:<" + bad + ">")
+			}
+			line("RCPT TO:<" + good + ">")
+		default: // the message handler
+			for j := 0; j < k; j++ {
+				line("MAIL FROM:<s@" + pool[1] + ">")
+				line("RCPT TO:<pager@" + pool[0] + ">")
+				line("DATA")
+				b.WriteString(smtpd.StuffLines([]string{"Subject: hello", "", "x"}))
+			}
+			line("MAIL FROM:<s@" + pool[1] + ">")
+			line("RCPT TO:<pager@" + pool[0] + ">")
+			line("DATA")
+			b.WriteString(smtpd.StuffLines([]string{"Subject: Re: test 1", "", "x"}))
+		}
+		line("QUIT")
+		g.Emit("lua", append(c.Fields(), vh.H([]byte(b.String())), vh.HS(script), labels(mail), labels(rcpt), labels(msg), "-", "-", "-")...)
+	}
 	for i := 0; i < g.N(20, 400); i++ { // concurrent sessions against one host
 		c, pool := smtpd.GenCfg(g, o)
 		c.Store = "mem"
